@@ -551,6 +551,14 @@ static void make_case(Case &c, uint64_t seed, uint64_t idx, bool thorough, const
 	// Reconstruct): idx 0, 1, 5 -> minus q, idx 4, 7, 11 -> plus q   (`--qdev -1|1` forces it)
 	int qdev = (idx == 0 || idx == 1 || idx == 5) ? -1 : (idx == 4 || idx == 7 || idx == 11) ? 1 : 0;
 	if (o.val("--qdev") != "") qdev = atoi(o.val("--qdev").c_str());
+	// signing runs get more minus-q cases (idx 2, 8, 14, ... besides 0, 1, 5): the deviating signer is the
+	// LAST member of QUAL (party n-1), so that its negative share enters the final sum last; for odd idx
+	// the second deviating party (n-2) sends s_j - q as well
+	{
+		int kind_now = c.kind;
+		if (o.val("--kind") != "") kind_now = (o.val("--kind") == "vss") ? K_VSS : (o.val("--kind") == "sign") ? K_SIGN : K_GEN;
+		if (kind_now == K_SIGN && qdev == 0 && idx % 3 == 2 && o.val("--qdev") == "") qdev = -1;
+	}
 	if (idx < 2 || qdev) pi = 13;               // (7,2): the configuration of tests/t-dkg.cc
 	else if (idx < 4) pi = 9;                   // (6,1)
 	else if (g.below(4) != 0) { static const int FP[] = { 4, 6, 7, 9, 10, 12, 13, 14 }; pi = FP[g.below(8)]; }   // pairs that admit faulty parties
@@ -582,6 +590,16 @@ static void make_case(Case &c, uint64_t seed, uint64_t idx, bool thorough, const
 	if (c.kind == K_VSS && f > 0 && (qdev || g.below(3) != 0)) { // usually the dealer is among the faulty
 		if (std::find(faulty.begin(), faulty.end(), c.dealer) == faulty.end()) faulty[0] = c.dealer;
 	}
+	bool two_signers = false;
+	if (c.kind == K_SIGN && qdev < 0 && f > 0) {
+		faulty[0] = c.n - 1;
+		two_signers = (f > 1) && (idx % 2 == 1);
+		if (f > 1) {
+			if (two_signers) faulty[1] = c.n - 2;
+			else if (faulty[1] == c.n - 1) faulty[1] = (int)g.below(c.n - 1);
+		}
+		for (int k = 2; k < f; k++) if (faulty[k] == faulty[0] || faulty[k] == faulty[1]) faulty[k] = (faulty[1] + 1 + (int)g.below(c.n - 3)) % (c.n - 1);
+	}
 	std::string negq = "-" + zs(c.q);
 	c.tag = f ? "cheat" : "honest";
 	int force = o.val("--dev") != "" ? atoi(o.val("--dev").c_str()) : -1;
@@ -604,7 +622,7 @@ static void make_case(Case &c, uint64_t seed, uint64_t idx, bool thorough, const
 				c.tag += std::string(":dealer-share-answer:") + nm; continue;
 			}
 			if (c.kind == K_VSS) { d2.A(0, (int)g.below(2), dq); c.tag += std::string(":recv-recshare:") + nm; continue; }
-			if (c.kind == K_SIGN && fi == 0) { d2.A(3, 0, dq); d2.O(r1, (int)g.below(2), dq); c.tag += std::string(":sign-si-share:") + nm; continue; }
+			if (c.kind == K_SIGN && (fi == 0 || (fi == 1 && two_signers))) { d2.A(3, 0, dq); d2.O(r1, (int)g.below(2), dq); c.tag += std::string(":sign-si-share:") + nm; continue; }
 			if (c.kind == K_SIGN) { d.O(r1, (int)g.below(2), dq); c.tag += std::string(":keygen-share:") + nm; continue; }
 		}
 		if (c.kind == K_SIGN) {
